@@ -20,7 +20,7 @@ CHECKS = {
             "pre-history x one batch (all bodies up to the bound, Sync false/true) x post-history; crash image after every I/O event from the batch on, process death and power loss; exactly-S_j oracle (a half-applied batch equals no S_j); visibility after Commit, restarts, merge+adoption",
             "Standard I/O; bodies <= 2-3 staged ops; crash model of C03; durability lower bound also from what Commit of a Sync batch promised", "DESIGN.md §6 C04"),
  "C19": seq("all command sequences within the bound over 22 mutating commands (five types, two keys, deletion, re-creation, clock advance, restart); every reply compared with a data-type model; a probe battery of every read command after every step; battery unchanged across restart",
-            "clock owned by the harness; unjudged cases (other-type commands on expired strings / emptied containers) prune the sequence", "DESIGN.md §6 C19"),
+            "clock owned by the harness; unjudged cases (other-type commands on expired strings / emptied containers) prune the sequence; crashtear symbol / crash level: restart after a crash that tore the previous command off the log (model rolled back), the torn batch must stay dead across later sessions", "DESIGN.md §6 C19"),
  "C05": seq("all pre-histories x all staging sequences within the bound with Batch.Get of every key after every staging step compared with a layered reference map; Commit result, reuse rejection, and the state after restart compared with the fold of the batch in issue order",
             "bounds: 3 keys, pre-history <=2-3 ops, staging <=4-6 ops incl. overflow of DataFileSize mid-way", "DESIGN.md §6 C05"),
  "C06": seq("operation sequences with Merge (both scan orders) and restarts: reference-map oracle after every step (live, after adoption, after later restarts); after adoption the merge directory is gone and merged files hold exactly the live records, once, no tombstones; fault injection: each I/O call of Merge fails once",
@@ -29,13 +29,13 @@ CHECKS = {
             "every history within the bound + Merge / Merge+adopting restart: crash image after every I/O event, each recovered with the real Open and compared with the acknowledged mapping, recursively to nesting depth 2-3; Merge || {Put, Delete, batch, overflowing batch}: all schedules x all crash points x tail cuts x nested recovery crashes",
             "sequential levels: process death only, file-system calls atomic and durable in order; Standard I/O and MMap", "DESIGN.md §6 C07"),
  "C18": seq("operation sequences over varint-like / long keys, each followed by Merge (both scan orders): every hint entry is checked against the record decoded at its position; hinted keys = stored keys = live keys; differential hint-path Open vs scan-path Open (index entries, values, KeyNum)",
-            "differential open on Standard I/O", "DESIGN.md §6 C18"),
+            "differential open on Standard I/O; keys include varint-like bytes, keys ending in zero bytes, 300-byte, 20 kB and 40-70 kB keys", "DESIGN.md §6 C18"),
  "C08": ("sched", "stateless model checking of the implementation: controlled cooperative scheduler (in a -race build whose baton hand-off is invisible to the race detector), preemption-bounded DFS over all interleavings at lock/atomic granularity; porcupine linearizability check per schedule; conflicting unsynchronised accesses between the calls of a schedule are reported as well",
             "every scenario of a shape grammar (2-3 client threads of 1-2 calls on colliding keys, optionally a Merge thread, x initial states x index types) is explored exhaustively up to the preemption bound (unbounded for the small shapes); per schedule: per-key linearizability of the call/return history and equality of the quiescent live mapping with the mapping after one and two restarts",
             "schedule points at Lock/RLock/atomics only (sound for race-free executions; the premise is monitored by the race detector in every explored schedule, and by C09 for all call pairs); bounds on threads, calls and preemptions", "DESIGN.md §6 C08"),
  "C09": ("sched", "stateless model checking under the controlled scheduler in a -race build whose baton hand-off is invisible to the race detector; preemption-bounded DFS",
             "all pairs and writer-containing triples of the 11 API calls x 3 index types x {one file, rotation on every record}: every schedule up to the preemption bound is monitored by the Go race detector and checked for panics, deadlock/livelock, internal errors and nil keys; plus one separate free-running pass (not an exploration, counted apart) with the engine's own background merge goroutine enabled and its ticker shortened, also under the race detector",
-            "the race detector sees only enumerated executions; 2-3 goroutines; the background goroutine is not owned by the scheduler (free-running pass only)", "DESIGN.md §6 C09"),
+            "the race detector sees only enumerated executions; 2-3 goroutines; the background goroutine is not owned by the scheduler (free-running pass only); a second free-running pass drives two databases of one process at the same time (shared process-wide state), counted apart as free_running_executions", "DESIGN.md §6 C09"),
  "C10": seq("every subset of a 6-key universe x direction x index type x shard count x prefix x every call sequence (Rewind/Seek/Next/one interleaved write) within the bound, at index level and at DB level; (Valid, Key, Value) compared with a sorted-slice cursor model after every call; ListKeys and Fold compared with the same snapshot",
             "bounds: 6 keys, 10 seek targets, 5 prefixes, call sequences of 4-6 calls; backward seeks are pruned (unspecified)", "DESIGN.md §6 C10"),
  "C11": ("sweep", "exhaustive sweep of start offsets x record-length windows x write shapes at the data-file layer, format-agnostic round-trip oracle",
@@ -47,9 +47,9 @@ CHECKS = {
  "C13": seq("operation sequences under every SyncStrategy x BytesPerSync x I/O back-end; at the return of every public call the per-file unflushed-byte accounting derived from the intercepted write/fsync/msync events is judged against the policy (Always, Threshold, Sync batch, Sync(), Close(), rotation)",
             "flush is judged at (*os.File).Sync / mmap Flush; MMap writes are seen through a recording wrapper of (*MMap).Write; only *.data files of the data directory", "DESIGN.md §6 C13"),
  "C14": seq("every operation sequence within the bound is executed in lock-step under 16-20 configurations; complete transcripts (results, errors, iteration orders, recovered mapping) must be identical; within equal (DataFileSize, sync strategy) also Stat and, for batch-free sequences, the data-file bytes",
-            "configuration set = single-dimension variants + mixed rows, not the full product; adversarial caller reusing its buffers", "DESIGN.md §6 C14"),
+            "configuration set = single-dimension variants + mixed rows, not the full product; adversarial caller reusing its buffers; torn-tail level (restart that finds the newest file 1 or 12 bytes short) compared within equal DataFileSize", "DESIGN.md §6 C14"),
  "C15": seq("operation sequences executed by an adversarial caller that reuses ONE key and ONE value buffer and poisons them after every return, for every index type: reference-map oracle on every read path, canary check of the caller's buffers, slices returned by Get/ListKeys compared with copies taken at return",
-            "sync.Pool replaced by a deterministic LIFO free list (the adversarial legal behaviour)", "DESIGN.md §6 C15"),
+            "sync.Pool replaced by a deterministic LIFO free list (the adversarial legal behaviour); Batch.Get keys go through the reused buffer too and are judged on the spot; quiet batch bodies without Batch.Get", "DESIGN.md §6 C15"),
  "C20": seq("operation sequences with Backup at every position under both I/O back-ends; every Backup is verified (copy opens while the source is open, equal dump, no lock file, independent), then the source's reference-map oracle continues through a 3-block Put and a restart",
             "SIGBUS is turned into a recoverable panic and reported; backups of databases with > 4 operations are not explored", "DESIGN.md §6 C20"),
  "C16": ("proc", "explicit-state enumeration of all Open/Close/Corrupt/Repair event sequences of 2-3 clients against a one-variable lock model, executed in-process and with real child processes (transcripts must agree); racing Opens explored under the controlled scheduler with every file-system/flock call as a schedule point",
